@@ -267,7 +267,10 @@ def _has_whole_array(x):
 
 def asint_specs(specs, rng, tier):
     """integer-dtype cases derived from the generated specs that contain an all-whole-number array"""
-    pool = [s for s in specs if isinstance(s, dict) and s.get("op") not in ("pair", "asint") and _has_whole_array(s)]
+    def lattice_like(s):
+        return _has_whole_array(s) or any(isinstance(v, str) and ("lattice" in v or "pattern" in v or "exact" in v)
+                                          for v in s.values())
+    pool = [s for s in specs if isinstance(s, dict) and s.get("op") not in ("pair", "asint") and lattice_like(s)]
     if not pool:
         return []
     cap = 300 if tier == "quick" else 1500
